@@ -146,6 +146,10 @@ func (c *checker) cmd(cm *Cmd) {
 			c.block(cm.Else)
 		}
 	case "for":
+		if cm.Var == "ij" {
+			// ($ij is the injected data everywhere: a local of that name could never be read)
+			c.errf("template %s: a loop variable may not be named ij", c.tmpl.Name)
+		}
 		c.expr(cm.Expr) // the loop variable is not in scope in the list expression
 		c.stack = append(c.stack, &binding{name: cm.Var, kind: "loop"})
 		c.block(cm.Body)
